@@ -208,7 +208,7 @@ func init() {
 		wireListEndianUnconditional(w, wc, r, "C01")
 		wireSequenceFrame(w, r, "C01", map[string]bool{"Field": true})
 		// what an encoder emits must not depend on which targets ran before it: no generator writes into the model they share
-		r.refile("C14/model-frame", "C01/model-frame", func(sr *Report) { runC14(w, sr) }, nil)
+		wireModelFrame(w, r, "C01", frameWire, nil, map[string]bool{"Field": true, "MatchPair": true, "Packet": true}, "a generator rewrites the part of the shared model the encoders are derived from: what the targets generated after it put on the wire depends on which targets ran before")
 		attributeIsolation(w, r, "C01")
 		wireFieldOrderEmission(wc, r, "C01", map[string]bool{"enc": true})
 		wireAssumptions(r)
@@ -237,6 +237,7 @@ func init() {
 		wireCppBeName(wc, r, "C02", []string{"dec"}, 1<<kBasic|1<<kLength|1<<kCheckSum)
 		wireOrder(wc, r, "C02", "dec")
 		wireFieldOrderEmission(wc, r, "C02", map[string]bool{"dec": true})
+		wireModelFrame(w, r, "C02", frameWire, nil, map[string]bool{"Field": true, "MatchPair": true}, "a generator rewrites the part of the shared model the decoders are derived from: the decoders of the targets generated after it no longer mirror the declared layout")
 		wireAssumptions(r)
 	})
 	register("C03", "Sibling cross-check of the five independently written generators against one absolute table: every cell of the encode and decode matrices must be satisfied by all five languages (the odd one out is named), the five GetPadding helpers must branch on the same facts and recognise every pad-character spelling the parser can produce, and the per-language scalar tables must agree (keys, sizes, distinct LE/BE columns). "+
@@ -254,6 +255,7 @@ func init() {
 		wirePadSpellings(w, wc, r)
 		wireTables(w, r, "C03")
 		wireSequenceFrame(w, r, "C03", map[string]bool{"Field": true, "MatchPair": true})
+		wireModelFrame(w, r, "C03", frameWire, nil, nil, "a generator rewrites the part of the shared model the codecs are derived from: the targets generated before and after it disagree on the wire")
 		wireAssumptions(r)
 	})
 	register("C04", "Length-of fields: (link) the parser gives the target field its LenAttr and the length field its resolved target on every path where a length field exists, with a checked lookup; (placeholder/back-patch) every codec generator has an emission under the LengthFieldAttribute case that depends on the field's type, and an emission under the LenAttr test that depends on byte order and on the length field's own type, and decoders read the field with byte order and type. "+
@@ -263,6 +265,7 @@ func init() {
 		lengthLinkByKind(w, r, "C04")
 		wireOneByteEndian(w, wc, r, "C04")
 		wireFieldOrderEmission(wc, r, "C04", map[string]bool{"enc": true})
+		wireModelFrame(w, r, "C04", frameWire, frameLength, nil, "a generator rewrites the length link / the kind of a field in the shared model: the targets generated after it lose or misplace the back-patch")
 		wireAssumptions(r)
 	})
 	register("C05", "Match dispatch: (expansion) every matchPair child and every key of a key list yields one pair, in source order, with the pair's packet; (table) each language's dispatch emitter ranges over the pair list and emits text depending on both the key and the packet of the loop element; "+
@@ -277,6 +280,7 @@ func init() {
 			return strings.Contains(o.Key, "match key")
 		})
 		wireEveryMatchField(w, wc, r, "C05", codecLangs)
+		wireModelFrame(w, r, "C05", frameWire, frameMatch, nil, "a generator rewrites a match table / the kind of a field in the shared model: the targets generated after it dispatch by another table than the DSL declares")
 		wireKeyAsWritten(w, wc, r, "C05")
 		wireAssumptions(r)
 	})
@@ -297,6 +301,7 @@ func init() {
 		r.floor("C06/checksum-sensitivity", 10)
 		wireCppBeName(wc, r, "C06", []string{"enc", "dec"}, 1<<kCheckSum)
 		wireRawType(w, r, "C06", "CheckSumFieldAttribute.Type")
+		wireModelFrame(w, r, "C06", frameWire, frameCheckSum, nil, "a generator rewrites the checksum attribute / the kind of a field in the shared model: the targets generated after it no longer calculate the checksum the DSL declares")
 		wireOrder(wc, r, "C06", "enc")
 		wireOneByteEndian(w, wc, r, "C06")
 		wireFieldOrderEmission(wc, r, "C06", map[string]bool{"enc": true, "dec": true})
@@ -310,6 +315,7 @@ func init() {
 		wireBeColumn(wc, r, "C15")
 		// the size of a checksum field comes from its resolved type, not from the type as it was spelled (uint32 has no table row)
 		wireRawType(w, r, "C15", "CheckSumFieldAttribute.Type")
+		wireModelFrame(w, r, "C15", framePackets, nil, map[string]bool{"Packet": true, "Field": true}, "a generator rewrites the packet list / a field list in the shared model: a packet whose slot was overwritten loses its dissector function although it is still called")
 		wireEveryMatchField(w, wc, r, "C15", []string{"lua"})
 		wireEmitOnceKeys(w, wc, r, "C15")
 		c15HelpersDefinedFirst(w, wc, r)
